@@ -33,13 +33,14 @@ TRUSTED = [
     'statement onto a primitive of coq/Model/C01.v) and the translator itself (fail-closed Python-ast -> Gallina, control '
     'flow mechanical); its output is proved equal to the hand-written reference model on every run',
     'hand-written model of the parts NOT translated: the pattern parser part of _compile_route (masked shape pin + '
-    'regenerated string literals), Router.handle_request, RoutesMapper.__init__, update_pattern (shape pins)',
+    'regenerated string literals), Router.handle_request, RoutesMapper.__init__, update_pattern, the rest of add_route / '
+    'route_prefix_context with the translated fragments cut out (shape pins)',
     "CPython re for the supported sublanguage and re.escape, WebOb's PATH_INFO decoding (modelled, validated by the "
     'correspondence run, not verified)',
 ]
 TECHNIQUE = ('control-flow model REGENERATED from the source on every run by a fail-closed Python-ast -> Gallina translator '
              '(RoutesMapper.__call__, RoutesMapper.connect, Route.__init__, the matcher closure of _compile_route, split_path_info, '
-             'decode_path_info) + Coq proofs that the regenerated program equals the hand-written reference model and satisfies '
+             'decode_path_info, the route-prefix fragments of Configurator.add_route / route_prefix_context) + Coq proofs that the regenerated program equals the hand-written reference model and satisfies '
              'the property theorems + regenerated string facts + differential correspondence of the extracted regenerated program')
 LEVEL_TEXT = ('Machine-checked theorems for every pattern of the modelled sublanguage, every path and every route list: the '
               'backtracking matcher of the compiled pattern is sound, complete and greedy w.r.t. a declarative decomposition '
@@ -70,6 +71,15 @@ def valid(case):
                 return False
             if d['static'] not in (0, 1):
                 return False
+            if d.get('levels') or d.get('inherit'):
+                # route prefixes exist only behind Configurator.include; inherit_slash is only legal with an empty pattern;
+                # a name declared twice at different include depths is resolved, not refused (C04's business)
+                if case['mode'] != 'router' or not all(isinstance(x, str) for x in d.get('levels') or []):
+                    return False
+                if d.get('inherit') and d['pattern'] != '':
+                    return False
+                if len(set(x['name'] for x in case['decls'])) < len(case['decls']):
+                    return False
             for p in d['preds']:
                 if p[0] == 'const':
                     if p[1] not in (0, 1):
@@ -134,7 +144,8 @@ def _pred_wire(p):
 
 
 def to_wire(case):
-    decls = [[d['name'], d['pattern'], int(d['static']), [_pred_wire(p) for p in d['preds']]] for d in case['decls']]
+    decls = [[d['name'], d['pattern'], int(d['static']), [_pred_wire(p) for p in d['preds']],
+              list(d.get('levels') or []), int(d.get('inherit') or 0)] for d in case['decls']]
     raw = [] if case['path'] is None else [case['path']]
     w = [_oracle(case), decls, raw, case['method'], 1 if case['mode'] == 'router' else 0]
     if case.get('history'):
@@ -279,6 +290,20 @@ def _run_mapper(case):
     return res
 
 
+def _add_route_nested(config, levels, name, pattern, kw):
+    """config.include(.., route_prefix=levels[0]) around an include with levels[1] ... around the add_route call"""
+    if not levels:
+        config.add_route(name, pattern, **kw)
+        return
+
+    def included(c, rest=levels[1:]):
+        _add_route_nested(c, rest, name, pattern, kw)
+    # Configurator.include skips a callable whose module:name it has already processed
+    _impl['ninc'] = _impl.get('ninc', 0) + 1
+    included.__name__ = included.__qualname__ = 'included_%d' % _impl['ninc']
+    config.include(included, route_prefix=levels[0])
+
+
 def _run_router(case):
     from webob import Request as WRequest
     Response = _impl['Response']
@@ -299,7 +324,9 @@ def _run_router(case):
         config = _impl['Configurator']()
         for i, d in enumerate(case['decls']):
             preds = [_mk_pred(p, i, calls) for p in d['preds']]
-            config.add_route(d['name'], d['pattern'], static=bool(d['static']), custom_predicates=preds)
+            _add_route_nested(config, list(d.get('levels') or []), d['name'], d['pattern'],
+                              dict(static=bool(d['static']), custom_predicates=preds,
+                                   **({'inherit_slash': True} if d.get('inherit') else {})))
             if not d['static'] and d['name'] not in seen:
                 config.add_view(view, route_name=d['name'])
             seen[d['name']] = i
@@ -426,6 +453,12 @@ def kinds(case, obs):
         k.append('has-static')
     if len(set(d['name'] for d in case['decls'])) < len(case['decls']):
         k.append('dup-names')
+    if any(d.get('levels') for d in case['decls']):
+        k.append('route-prefix')
+        if any(d.get('levels') and d['pattern'].endswith('/') and d['pattern'].strip('/') for d in case['decls']):
+            k.append('route-prefix-pattern-with-trailing-slash')
+        if any(len(d.get('levels') or []) > 1 for d in case['decls']):
+            k.append('route-prefix-nested')
     dec = _decoded(case)
     if '\n' in dec:
         k.append('path-newline')
